@@ -94,3 +94,31 @@ Theorem applied_exactly_once_if_applicable : forall (ops : list op) (r : Z),
   zget0 (bal (run ops)) r = minted r (applied (run ops)).
 Proof. exact effects_exactly_once_run. Qed.
 Print Assumptions applied_exactly_once_if_applicable.
+
+
+(* --- source translation tie (GenFn) --- *)
+(* The Go function bodies named below are re-translated from the source on every check
+   (harness/cmd/extract/gotrans*.go -> GenFn/*.v, semantics of the Go subset: Trans/GoSem.v).
+   Each theorem states that the hand-written model function equals the translated body for all
+   inputs (hypotheses are Go type ranges / the 256-bit range of math.Int only); the proofs are in
+   Trans/C02Fn.v.  A readable change of the Go body breaks the proof, an unreadable one breaks the
+   translator.  See design/GoTrans.md. *)
+From Paloma Require Trans.GoSem Trans.GoSemFacts Trans.C02Fn.
+
+Theorem required_model_is_translation_of_source :
+  forall s : Oracle.state,
+  GoSemFacts.fits256 (Gen.C02.threshold_num * Oracle.total s) ->
+  GenFn.TryAttestation.tryAttestation_requiredPower (Oracle.total s) = GoSem.Val (Oracle.required s).
+Proof. exact Trans.C02Fn.required_eq. Qed.
+Print Assumptions required_model_is_translation_of_source.
+
+Theorem exceeds_model_is_translation_of_source :
+  forall req x : Z, GenFn.TryAttestation.tryAttestation_fires x req = Oracle.exceeds req x.
+Proof. exact Trans.C02Fn.fires_eq. Qed.
+Print Assumptions exceeds_model_is_translation_of_source.
+
+Theorem vote_tally_model_is_translation_of_source :
+  GenFn.TryAttestation.tryAttestation_initialPower = 0%Z /\
+  forall acc p : Z, GoSemFacts.fits256 (acc + p) -> GenFn.TryAttestation.tryAttestation_addVote acc p = GoSem.Val (acc + p)%Z.
+Proof. exact (conj Trans.C02Fn.tally_start_eq Trans.C02Fn.tally_step_eq). Qed.
+Print Assumptions vote_tally_model_is_translation_of_source.
